@@ -18,7 +18,7 @@ pub fn def() -> PropDef {
 
 fn meta(_ctx: &Ctx) -> EvidenceMeta {
     EvidenceMeta {
-        rule: "byte strings: random bytes behind a wasm header, 0-3 byte/structure-level mutations of generated modules and corpus members (bit flips, truncation, LEB padding, section swap/dup/drop/retag, foreign sections, foreign opcodes and value types), truncations of corpus members at every 7th offset, and deep-nesting inputs parsed in a child process; x {default, only_stable_features}. non-trivial = the reference validator got past the header (input has >= 1 well-formed section) ; distinct by input bytes. Oracle: no unwind; walrus Ok <=> wasmparser::Validator(feature set documented for the config) Ok; child killed by a signal = stack overflow = violation; watchdog = inconclusive.".into(),
+        rule: "byte strings: random bytes behind a wasm header, 0-3 byte/structure-level mutations of generated modules and corpus members (bit flips, truncation, LEB padding, section swap/dup/drop/retag, foreign sections, foreign opcodes and value types), truncations of corpus members at every 7th offset, and deep-nesting inputs parsed in a child process; x {default, only_stable_features}. non-trivial = the reference validator got past the header (input has >= 1 well-formed section) ; distinct by input bytes. Oracle: no unwind; walrus Ok <=> wasmparser::Validator(feature set documented for the config) Ok; child killed by a signal = stack overflow = violation; watchdog = inconclusive; a deep input that costs more than 3 s of CPU time is re-run at a quarter of the depth and a cost ratio above 10 (linear: 4, quadratic: 16) is a violation of 'never hangs'.".into(),
         assumptions: vec![
             "the supported feature set is re-stated in the harness from walrus's documentation (optable::walrus_features), not read from walrus".into(),
             "memory exhaustion is outside the statement and never reported".into(),
@@ -35,7 +35,16 @@ fn verdicts(bytes: &[u8], out: &mut CaseOut, origin: &str) -> Result<(bool, bool
             only_stable: *stable,
             ..wal::Cfg::plain()
         };
-        let w = wal::parse(bytes, &cfg.to_config()).map_err(|f| {
+        // the same settings reached directly, through a clone of the
+        // configuration object, or through a setter history that first sets
+        // switches the other way (strict validation stays on)
+        let h = fnv(bytes);
+        let mc = match h % 3 {
+            0 => cfg.to_config(),
+            1 => cfg.to_config().clone(),
+            _ => cfg.to_config_hist((h >> 8) as u8 & 0b11110),
+        };
+        let w = wal::parse(bytes, &mc).map_err(|f| {
             Failure::new(
                 f.signature.clone(),
                 format!("{} [stable={} {} {} bytes]", f.detail, stable, origin, bytes.len()),
@@ -145,7 +154,10 @@ pub fn check(_ctx: &Ctx, input: &Input) -> CaseResult {
 // ---- deep nesting, in a child process ----
 
 fn deep_module(kind: &str) -> Vec<u8> {
-    let n = 100_000usize;
+    deep_module_n(kind, 100_000)
+}
+
+fn deep_module_n(kind: &str, n: usize) -> Vec<u8> {
     let mut m = we::Module::new();
     let mut t = we::TypeSection::new();
     t.function(vec![], vec![]);
@@ -273,9 +285,10 @@ pub fn child_main(path: &str) -> i32 {
         Err(_) => return 3,
     };
     let cfg = wal::Cfg::plain().to_config();
-    match cfg.parse(&bytes) {
+    let code = match cfg.parse(&bytes) {
         Ok(mut m) => {
             println!("accepted");
+            println!("parse_cpu_ms {}", own_cpu_ms());
             let out = m.emit_wasm();
             println!("emitted {}", out.len());
             0
@@ -284,24 +297,33 @@ pub fn child_main(path: &str) -> i32 {
             println!("rejected");
             0
         }
-    }
+    };
+    println!("cpu_ms {}", own_cpu_ms());
+    code
 }
 
-fn deep_case(kind: &str) -> CaseResult {
-    use std::os::unix::process::ExitStatusExt;
-    let mut out = CaseOut::default();
-    let bytes = deep_module(kind);
-    out.hash = fnv(kind.as_bytes());
-    let v = validate_with(&bytes, walrus_features(false)).is_ok();
-    let exe = std::env::current_exe().map_err(|e| Failure::new("harness", e.to_string()));
-    let exe = match exe {
-        Ok(e) => e,
-        Err(_) => return Ok(out),
-    };
-    let tmp = std::env::temp_dir().join(format!("walrus-verif-deep-{}-{}.wasm", std::process::id(), kind));
-    if std::fs::write(&tmp, &bytes).is_err() {
-        return Ok(out);
-    }
+/// CPU time (user + system) this process has used so far, from
+/// /proc/self/stat; unlike wall-clock time it does not grow with the load
+/// other processes put on the machine
+fn own_cpu_ms() -> u64 {
+    let s = std::fs::read_to_string("/proc/self/stat").unwrap_or_default();
+    // fields after the parenthesised command name; utime and stime are the
+    // 14th and 15th fields of the line, in ticks of 10 ms
+    let rest = s.rsplit(')').next().unwrap_or("");
+    let f: Vec<&str> = rest.split_whitespace().collect();
+    let t = |i: usize| f.get(i).and_then(|x| x.parse::<u64>().ok()).unwrap_or(0);
+    (t(11) + t(12)) * 10
+}
+
+struct ChildRun {
+    status: Option<std::process::ExitStatus>,
+    stdout: String,
+}
+
+fn run_parse_child(bytes: &[u8], tag: &str) -> Option<ChildRun> {
+    let exe = std::env::current_exe().ok()?;
+    let tmp = std::env::temp_dir().join(format!("walrus-verif-deep-{}-{}.wasm", std::process::id(), tag));
+    std::fs::write(&tmp, bytes).ok()?;
     // the child runs under a 6 GiB address-space limit: unbounded allocation
     // ends in an abort (signal) instead of taking the machine down
     let mut child = match std::process::Command::new("sh")
@@ -316,7 +338,7 @@ fn deep_case(kind: &str) -> CaseResult {
         Ok(c) => c,
         Err(_) => {
             let _ = std::fs::remove_file(&tmp);
-            return Ok(out);
+            return None;
         }
     };
     let start = std::time::Instant::now();
@@ -340,6 +362,24 @@ fn deep_case(kind: &str) -> CaseResult {
         let _ = o.read_to_string(&mut stdout);
     }
     let _ = std::fs::remove_file(&tmp);
+    Some(ChildRun { status, stdout })
+}
+
+fn cpu_ms_of(stdout: &str) -> Option<u64> {
+    stdout.lines().filter_map(|l| l.strip_prefix("cpu_ms ")).filter_map(|x| x.trim().parse().ok()).last()
+}
+
+fn deep_case(kind: &str) -> CaseResult {
+    use std::os::unix::process::ExitStatusExt;
+    let mut out = CaseOut::default();
+    let bytes = deep_module(kind);
+    out.hash = fnv(kind.as_bytes());
+    let v = validate_with(&bytes, walrus_features(false)).is_ok();
+    let run = match run_parse_child(&bytes, kind) {
+        Some(r) => r,
+        None => return Ok(out),
+    };
+    let (status, stdout) = (run.status, run.stdout);
     match status {
         None => {
             out.label(format!("deep:{}:watchdog-inconclusive", kind));
@@ -370,6 +410,32 @@ fn deep_case(kind: &str) -> CaseResult {
                     format!("deep:{}:verdict", kind),
                     format!("walrus accepted={} but reference validator accepted={} for deep '{}'", accepted, v, kind),
                 ));
+            }
+            // "never hangs": time is not a verdict, growth is. When the
+            // depth-100000 input costs more than 3 s of CPU time, the same
+            // shape at a quarter of the depth is measured too; linear work
+            // costs a quarter, quadratic work a sixteenth. More than a factor
+            // of 10 between the two is reported (CPU time of the child, not
+            // wall-clock time; nothing is decided below the 3 s floor).
+            if let Some(big) = cpu_ms_of(&stdout) {
+                out.label(format!("deep:{}:{}", kind, if big > 3000 { "cpu-time-above-3s-floor" } else { "cpu-time-below-3s-floor" }));
+                if big > 3000 && kind != "huge-locals" {
+                    let small_bytes = deep_module_n(kind, 25_000);
+                    if let Some(r2) = run_parse_child(&small_bytes, &format!("{}-quarter", kind)) {
+                        if let (Some(st), Some(small)) = (r2.status, cpu_ms_of(&r2.stdout)) {
+                            if st.success() && big > 10 * small.max(20) {
+                                return Err(Failure::new(
+                                    format!("deep:{}:superlinear-time", kind),
+                                    format!(
+                                        "the deep '{}' module with 100000 levels costs {} ms of CPU time, with 25000 levels {} ms: a factor of {} for 4 times the input (linear work: 4, quadratic: 16); at this growth rate inputs of a few MiB do not finish",
+                                        kind, big, small, big / small.max(1)
+                                    ),
+                                ));
+                            }
+                            out.label(format!("deep:{}:growth-measured", kind));
+                        }
+                    }
+                }
             }
             out.nontrivial = true;
             out.label(format!("deep:{}:{}", kind, if accepted { "accepted" } else { "rejected" }));
